@@ -268,7 +268,7 @@ def evaluate(case: dict) -> list[Violation]:
 
 
 def shards(tier: str, seed: int) -> list[dict]:
-    n_sh, per = (16, 30) if tier == "quick" else (48, 350)
+    n_sh, per = (16, 30) if tier == "quick" else (48, 250)
     return [{"seed": seed * 1000 + i, "n": per} for i in range(n_sh)]
 
 
